@@ -153,6 +153,11 @@ class Socket:
         self.logger.debug(f"closing socket connection to '{self.host}' on port '{self.port}'")
 
         if self.isalive() and isinstance(self.sock, socket.socket):
+            # shutdown first so that a read blocked on this socket in another thread (the timeout
+            # decorator runs operations in a worker thread) is woken up rather than left blocked
+            # until the socket timeout expires; closing the file descriptor alone does not do that
+            with suppress(OSError):
+                self.sock.shutdown(socket.SHUT_RDWR)
             self.sock.close()
 
         self.logger.debug(
